@@ -1,10 +1,12 @@
 """C25 — bounded complement (run-time contracts over the fake DBAPI, NOT proof): the QueuePool never hands one connection
-to two holders and respects its limits.  SEQUENTIAL histories only: one thread, no schedules, no time-outs / wake-ups —
-the property's quantifier over thread interleavings is NOT explored here.
+to two holders and respects its limits; a checkout that waits is served by a connection returned before its timeout.
+Two parts, one coverage block each: (1) SEQUENTIAL histories, (2) REAL-THREAD deterministic schedules of waiting checkouts.
+Neither explores all thread interleavings: the property's quantifier over schedules is covered only for the schedule family (2).
 
-``bounded(run, tier, seed)`` drives the REAL ``QueuePool(pool_size ∈ 0..2, max_overflow ∈ -1..2, FIFO and LIFO)`` through every
-history of {checkout, checkout with failing creator, return (holder 0/1/2), hard invalidate, soft invalidate, pool-wide
-``_invalidate``, drop reference + gc, use} and evaluates after EVERY step (clauses in rtc/poolhist.py):
+(1) SEQUENTIAL.  ``bounded(run, tier, seed)`` drives the REAL ``QueuePool(pool_size ∈ 0..2, max_overflow ∈ -1..2, FIFO and LIFO)``
+through every history of {checkout, checkout with failing creator, return (holder 0/1/2), hard invalidate, soft invalidate,
+pool-wide ``_invalidate``, drop reference + gc, use} (pool timeout 0, one thread) and evaluates after EVERY step (clauses in
+rtc/poolhist.py):
 
   P1  max_overflow > -1 ∧ pool_size > 0 ⇒ #DBAPI connections open (ghost ledger) <= pool_size + max_overflow
   P2  pool_size > 0 ⇒ #idle <= pool_size
@@ -17,9 +19,37 @@ history of {checkout, checkout with failing creator, return (holder 0/1/2), hard
 and after all holders released: R1 ``checkedout() == 0``, R2 every open connection is idle in the pool, R4 the pool hands out
 ``pool_size + max_overflow`` connections again (no slot leaked by a creator failure or an invalidation).
 
-It appends exactly one block to ``run.coverage["bounded"]`` and reports failures through ``run``.
+(2) THREAD SCHEDULES (``run_schedule``).  REAL ``QueuePool(pool_size, max_overflow) ∈ {(1,0), (2,0), (1,1)}``, FIFO and LIFO, pool
+timeout T = 20 s.  The main thread exhausts the pool; 1 or 2 waiter THREADS call ``pool.connect()`` and block in the timed
+``Queue.get`` (each is observed inside ``Condition.wait`` before the schedule goes on); then the main thread executes one or two
+BLOCKS of up to 3 (quick: two blocks of up to 2) operations over {ret = return a connection, co = check one out, inv = hard
+invalidate one}.  A block is atomic with respect to the waiters — the main thread holds the queue's re-entrant mutex around it
+— so that a wake-up delivered inside the block can be *stolen* inside the block (``ret, co``: the woken waiter finds the queue
+empty again), several wake-ups can be delivered at once (``ret, ret``), a return can hit a full queue, etc.  After each block
+the main thread waits (bounded) for QUIESCENCE: every waiter is blocked in ``Condition.wait`` un-notified or has finished.
+Finally every connection (main's and the served waiters') is returned one at a time with quiescence in between.
+Synchronisation is by observation, never by sleeping: the queue's ``not_empty`` condition object is replaced by a
+``threading.Condition`` subclass that reports wait-entry / notify / wake-up to a monitor (the Queue and pool code that runs is the
+real one); all waits of the harness are bounded and every thread is a daemon joined with a timeout.  Clauses, at every
+quiescent point:
+
+  P1, P2, P3 (``checkedout()`` == main's holders + served waiters), P4, P5 (not closed), P6 as above;
+  W0  a timed checkout on an exhausted pool blocks (does not fail or return at once);
+  W1  a waiting checkout gives up (``TimeoutError``) only after its timeout has elapsed — giving up earlier means it cannot be
+      "served by a connection returned before its timeout";  any other exception: P8;
+  W2  every connection having been returned to the pool well before a waiter's deadline (the whole schedule takes
+      milliseconds; no verdict if the machine stalled to within 2 s of a deadline), that waiter has been SERVED — late service is
+      accepted (the property does not bound the latency), ``TimeoutError`` is not;
+and at the end R1, R2, R4 (the refill must not wait).  "short" schedules: one waiter with T = 0.3 s, one block of <= 2 operations,
+nothing returned afterwards until the waiter has finished: it is served or times out, never before 0.3 s (W1), and the
+P-clauses / R-clauses hold afterwards.
+
+``bounded`` appends the two blocks to ``run.coverage["bounded"]`` and reports failures through ``run``.
 """
 import json
+import threading
+import time
+import zlib
 
 from rtc import fakedbapi as F
 from rtc import poolhist as H
@@ -86,6 +116,443 @@ def worker(shard, nshards, maxlen):
     return out
 
 
+# ===================================================================================================== thread schedules
+# Real threads, deterministic schedules (see the module docstring, "THREAD SCHEDULES").  Nothing of the pool is modelled: the
+# real ``QueuePool`` / ``util.queue.Queue`` run; the only instrumentation is that the queue's ``not_empty`` condition object is
+# replaced by a subclass of ``threading.Condition`` that reports wait-entry / wake-up / notify to a monitor, so that the main
+# thread can wait (bounded) for *quiescence* — every waiter is blocked inside ``Condition.wait`` un-notified, or has finished —
+# instead of sleeping.  A block of main-thread operations is made atomic with respect to the waiters by holding the queue's
+# (re-entrant) mutex around it: a waiter that is notified inside the block can only look at the queue after the block.
+T_LONG = 20.0           # pool timeout of the waiters in "long" mode: never reached by a schedule (they take milliseconds)
+T_SHORT = 0.3           # pool timeout in "short" mode: the waiter is allowed to time out, but not before T_SHORT elapsed
+QUIESCE_BOUND = 10.0    # bounded wait for quiescence / for the queue mutex
+DEADLINE_MARGIN = 2.0   # a verdict on "served before its timeout" is only given when the returns ended this long before a deadline
+EPS = 0.05
+BLOCK_OPS = ["ret", "co", "inv"]
+TCONFIGS = [dict(name=f"queue({ps},{mo}){'+lifo' if lifo else ''}", pool_size=ps, max_overflow=mo, lifo=lifo)
+            for ps, mo in ((1, 0), (2, 0), (1, 1)) for lifo in (False, True)]
+TFUNCTION = "sqlalchemy.util.queue.Queue.get/put + sqlalchemy.pool.impl.QueuePool._do_get/_do_return_conn (timed wait, real threads)"
+
+
+class _Monitor:
+    """who is blocked where; every transition except 'done' happens while the acting thread holds the queue mutex"""
+
+    def __init__(self):
+        self.cv = threading.Condition(threading.Lock())
+        self.state = {}          # waiter index -> new | waiting | notified | running | done
+        self.by_ident = {}
+        self.order = []          # indexes blocked in wait() and not yet notified, in wait-entry order (= Condition's own order)
+        self.rewaits = 0         # a waiter that had been notified found the queue empty and went back to waiting
+        self.was_notified = set()
+
+    def enter_wait(self):
+        with self.cv:
+            i = self.by_ident.get(threading.get_ident(), "main")
+            if i in self.was_notified:
+                self.rewaits += 1
+                self.was_notified.discard(i)
+            self.state[i] = "waiting"
+            self.order.append(i)
+            self.cv.notify_all()
+
+    def notified(self, n):
+        with self.cv:
+            for i in self.order[:n]:
+                self.state[i] = "notified"
+                self.was_notified.add(i)
+            del self.order[:n]
+
+    def leave_wait(self):
+        with self.cv:
+            i = self.by_ident.get(threading.get_ident(), "main")
+            if i in self.order:          # left by time-out, not by notify
+                self.order.remove(i)
+            self.state[i] = "running"
+
+    def done(self, i):
+        with self.cv:
+            self.state[i] = "done"
+            self.was_notified.discard(i)
+            self.cv.notify_all()
+
+    def quiescent(self):
+        return all(v in ("waiting", "done") for k, v in self.state.items() if k != "main")
+
+    def wait_quiescent(self, bound):
+        with self.cv:
+            return self.cv.wait_for(self.quiescent, bound)
+
+
+class _TracedCondition(threading.Condition):
+    def __init__(self, lock, mon):
+        super().__init__(lock)
+        self._mon = mon
+
+    def wait(self, timeout=None):
+        self._mon.enter_wait()
+        try:
+            return super().wait(timeout)
+        finally:
+            self._mon.leave_wait()
+
+    def notify(self, n=1):
+        self._mon.notified(n)
+        super().notify(n)
+
+
+def run_schedule(cfg, nw, blocks, mode="long", trace=False):
+    """cfg: one of TCONFIGS; nw: number of waiter threads; blocks: tuple of tuples over BLOCK_OPS, each executed by the main thread
+    atomically (queue mutex held); mode 'long' (waiters must all be served by the final returns) | 'short' (one waiter with a short
+    timeout, nothing is returned after the blocks until it has finished).
+    -> dict(failure | None, na, inconclusive, rewaits, served, steps)"""
+    from sqlalchemy import pool as sapool, exc as sa_exc
+    L = F.Ledger()
+    timeout = T_LONG if mode == "long" else T_SHORT
+    ps, mo = cfg["pool_size"], cfg["max_overflow"]
+    cap = ps + mo
+    p = F.make_pool(L, sapool.QueuePool, pool_size=ps, max_overflow=mo, timeout=timeout, use_lifo=bool(cfg.get("lifo")))
+    q = p._pool
+    mon = _Monitor()
+    q.not_empty = _TracedCondition(q.mutex, mon)
+    held = []                       # fairies of the main thread
+    results = {}                    # waiter index -> dict(outcome, fairy, t0, elapsed, timeout_error, msg)
+    closed_served = set()
+    threads = []
+    steps = []
+    out = dict(failure=None, na=False, inconclusive=None, rewaits=0, served=0, steps=steps)
+
+    def fail(clause, detail, at):
+        raise H.Fail(clause, f"{at}: {detail}")
+
+    def live_fairies():
+        return held + [results[i]["fairy"] for i in sorted(results) if results[i]["outcome"] == "served" and i not in closed_served]
+
+    def check_state(at):
+        # only called at quiescence: no thread is inside pool code
+        live = live_fairies()
+        for f in live:
+            dc = f.dbapi_connection
+            if dc is None or dc.closed:
+                fail("P5-handed-out-closed", f"a live checkout holds {dc!r}", at)
+        if len({id(f.dbapi_connection) for f in live}) != len(live):
+            fail("P4-two-holders", repr([f.dbapi_connection for f in live]), at)
+        if len(L.open) > cap:
+            fail("P1-limit", f"{len(L.open)} open DBAPI connections > pool_size+max_overflow={cap}", at)
+        idle = F.idle_connections(p)
+        if len(q.queue) > ps:
+            fail("P2-idle", f"{len(q.queue)} idle > pool_size={ps}", at)
+        if any(c.closed for c in idle):
+            fail("P6-idle-closed", repr(idle), at)
+        if p.checkedout() != len(live):
+            fail("P3-checkedout-count", f"checkedout()={p.checkedout()} live checkouts={len(live)}", at)
+        for i, r in results.items():
+            # W1: giving up is allowed only once the time-out has elapsed
+            if r["outcome"] != "served" and not (r["timeout_error"] and r["elapsed"] >= timeout - EPS):
+                if r["timeout_error"]:
+                    fail("W1-gave-up-before-its-timeout", f"waiter {i} raised TimeoutError after {r['elapsed']:.2f}s, its timeout is "
+                         f"{timeout:.2f}s ({r['msg']})", at)
+                fail("P8-spurious-checkout-failure", f"waiter {i}: {r['outcome']}: {r['msg']}", at)
+
+    def waiter(i):
+        mon.by_ident[threading.get_ident()] = i
+        t0, w0 = time.monotonic(), time.time()
+        r = dict(outcome="served", fairy=None, timeout_error=False, msg="")
+        try:
+            r["fairy"] = p.connect()
+        except BaseException as ex:  # noqa — classified, not kept
+            r.update(outcome=type(ex).__name__, timeout_error=isinstance(ex, sa_exc.TimeoutError), msg=str(ex)[:110])
+        r["elapsed"] = max(time.monotonic() - t0, time.time() - w0)
+        r["t0"] = t0
+        results[i] = r
+        mon.done(i)
+
+    def quiesce(at):
+        if not mon.wait_quiescent(QUIESCE_BOUND):
+            raise TimeoutError(f"{at}: no quiescence within {QUIESCE_BOUND}s: {dict(mon.state)}")
+
+    def record(step, **kw):
+        if trace:
+            steps.append(dict(step=step, waiters={str(k): v for k, v in mon.state.items()}, rewaits=mon.rewaits,
+                              outcomes={str(i): (r["outcome"], round(r["elapsed"], 2)) for i, r in results.items()},
+                              idle=repr(F.idle_connections(p)), checkedout=p.checkedout(), main_holds=len(held), **kw))
+
+    def close_one():
+        """return one connection: main's first, else the one of a served waiter -> False when there is nothing left"""
+        if held:
+            held.pop(0).close()
+            return True
+        for i in sorted(results):
+            if results[i]["outcome"] == "served" and i not in closed_served:
+                closed_served.add(i)
+                results[i]["fairy"].close()
+                return True
+        return False
+
+    try:
+        try:
+            # ---- phase 0: exhaust the pool; phase 1: the waiters block one after the other
+            for _ in range(cap):
+                held.append(p.connect())
+            for i in range(nw):
+                mon.state[i] = "new"
+                th = threading.Thread(target=waiter, args=(i,), daemon=True, name=f"C25-waiter-{i}")
+                threads.append(th)
+                th.start()
+                quiesce(f"waiter {i} started")
+                if mon.state[i] != "waiting":
+                    fail("W0-did-not-wait", f"waiter {i} on an exhausted pool did not block: {results.get(i)}", f"waiter {i} started")
+            check_state("all waiters blocked")
+            record("waiters-blocked")
+            # ---- phase 2: atomic blocks
+            for bi, block in enumerate(blocks):
+                if not q.mutex.acquire(timeout=QUIESCE_BOUND):
+                    raise TimeoutError(f"block {bi}: queue mutex not available within {QUIESCE_BOUND}s")
+                try:
+                    for op in block:
+                        if op == "co":
+                            if not (len(q.queue) > 0 or p._overflow < p._max_overflow):
+                                out["na"] = True        # the main thread itself would block: not a schedule of this family
+                                break
+                            held.append(p.connect())
+                        elif not held:
+                            out["na"] = True
+                            break
+                        elif op == "ret":
+                            held.pop(0).close()
+                        else:
+                            held.pop(0).invalidate()
+                finally:
+                    q.mutex.release()
+                if out["na"]:
+                    break
+                if mode == "long":
+                    quiesce(f"after block {bi} {list(block)}")
+                    check_state(f"after block {bi} {list(block)}")
+                record(f"block {bi} {list(block)}")
+            # ---- phase 3
+            if mode == "short":
+                for i, th in enumerate(threads):
+                    th.join(T_SHORT + QUIESCE_BOUND)
+                    if th.is_alive():
+                        raise TimeoutError(f"waiter {i} (timeout {T_SHORT}s) still running after {T_SHORT + QUIESCE_BOUND}s")
+                if not out["na"]:
+                    check_state("short-timeout waiter finished")
+                record("waiter-finished")
+            # every connection is returned, one at a time, quiescence after each: every waiter can be served
+            while True:
+                quiesce("final returns")
+                if not out["na"]:
+                    check_state("final returns")
+                if all(v == "done" for v in mon.state.values()) or not close_one():
+                    break
+            t_returned = time.monotonic()
+            for i, th in enumerate(threads):
+                if mon.state[i] != "done" and not out["na"]:
+                    # everything is back in the pool and this waiter is still blocked: it has until its deadline
+                    th.join(timeout + QUIESCE_BOUND)
+                else:
+                    th.join(QUIESCE_BOUND)
+                if th.is_alive():
+                    raise TimeoutError(f"waiter {i} still running at the end")
+            record("all-returned")
+            if mode == "long" and not out["na"]:
+                for i in range(nw):
+                    r = results[i]
+                    if r["outcome"] != "served":
+                        if t_returned > r["t0"] + timeout - DEADLINE_MARGIN:
+                            out["inconclusive"] = f"the schedule took {t_returned - r['t0']:.1f}s (machine too slow), no verdict for waiter {i}"
+                            continue
+                        fail("W2-not-served-by-a-connection-returned-before-its-timeout",
+                             f"waiter {i} (timeout {timeout:.0f}s) ended with {r['outcome']} after {r['elapsed']:.2f}s although every "
+                             f"connection was returned to the pool {t_returned - r['t0']:.2f}s after it started waiting", "end")
+                check_state("end")
+            out["served"] = sum(1 for r in results.values() if r["outcome"] == "served")
+            out["rewaits"] = mon.rewaits
+            # ---- release everything; R1 / R2 / R4
+            while close_one():
+                pass
+            if not out["na"] and out["inconclusive"] is None:
+                if p.checkedout() != 0:
+                    fail("R1-checkedout-after-release", f"checkedout()={p.checkedout()} with no holder", "release-all")
+                idle = F.idle_connections(p)
+                leaked = [c for c in L.open if not any(c is d for d in idle)]
+                if leaked:
+                    fail("R2-open-connection-not-in-pool", f"open {L.open!r}, idle {idle!r}", "release-all")
+                # R4: the pool hands out pool_size + max_overflow connections again without waiting
+                p._timeout = 0
+                for j in range(cap):
+                    try:
+                        held.append(p.connect())
+                    except BaseException as ex:  # noqa
+                        fail("R4-slot-leaked", f"refill checkout {j + 1} of {cap}: {type(ex).__name__}: {str(ex)[:100]}", "refill")
+                check_state("refill")
+        except H.Fail as fl:
+            out["failure"] = dict(clause=fl.clause, detail=fl.detail)
+            out["rewaits"] = mon.rewaits
+            record("FAILED", clause=fl.clause)
+        except TimeoutError as te:      # the harness's own bounded waits (builtin TimeoutError, not sqlalchemy's)
+            out["inconclusive"] = str(te)
+            record("INCONCLUSIVE", why=str(te))
+    finally:
+        # never leave a thread blocked for longer than its pool timeout: give everything back, bounded joins, daemon threads
+        try:
+            while close_one():
+                pass
+            while held:
+                held.pop().close()
+        except BaseException:  # noqa
+            pass
+        for th in threads:
+            th.join(0.5 if out["failure"] or out["inconclusive"] else QUIESCE_BOUND)
+        for r in results.values():
+            try:
+                if r.get("fairy") is not None:
+                    r["fairy"].close()
+            except BaseException:  # noqa
+                pass
+        try:
+            p.dispose()
+        except BaseException:  # noqa
+            pass
+    return out
+
+
+def all_blocks(maxops):
+    out = []
+
+    def rec(prefix):
+        if prefix:
+            out.append(prefix)
+        if len(prefix) < maxops:
+            for op in BLOCK_OPS:
+                rec(prefix + (op,))
+    rec(())
+    return out
+
+
+def schedules(tier):
+    """(config, number of waiters, blocks, mode), enumerated once each"""
+    one = all_blocks(3)
+    two = all_blocks(2) if tier == "quick" else all_blocks(3)
+    seqs = [(b,) for b in one] + [(a, b) for a in two for b in two]
+    out = []
+    for cfg in TCONFIGS:
+        for nw in (1, 2):
+            for blocks in seqs:
+                out.append((cfg, nw, blocks, "long"))
+        for b in [()] + [(b,) for b in all_blocks(2)]:
+            out.append((cfg, 1, b, "short"))
+    return out
+
+
+def sched_desc(cfg, nw, blocks, mode):
+    return dict(config=cfg["name"], waiters=nw, blocks=[list(b) for b in blocks], mode=mode,
+                pool_timeout=T_LONG if mode == "long" else T_SHORT)
+
+
+def tworker(shard, nshards, tier):
+    F.quiet()
+    out = dict(runs=0, evaluated=0, na=0, stolen=0, rewaits=0, served=0, short=0, failures=[], inconclusive=[], samples=[])
+    nfail = 0
+    for idx, (cfg, nw, blocks, mode) in enumerate(schedules(tier)):
+        if idx % nshards != shard:
+            continue
+        if nfail >= 3:          # a defect in the wait loop costs up to one pool timeout per failing schedule: bounded
+            break
+        out["runs"] += 1
+        r = run_schedule(cfg, nw, blocks, mode)
+        if r["inconclusive"] and not r["failure"]:
+            r = run_schedule(cfg, nw, blocks, mode)          # once more (a stalled machine)
+        if r["failure"]:
+            nfail += 1
+            out["failures"].append(dict(sched_desc(cfg, nw, blocks, mode), **r["failure"]))
+            continue
+        if r["inconclusive"]:
+            out["inconclusive"].append(dict(sched_desc(cfg, nw, blocks, mode), why=r["inconclusive"]))
+            continue
+        if r["na"]:
+            out["na"] += 1
+            continue
+        out["evaluated"] += 1
+        out["short"] += 1 if mode == "short" else 0
+        out["served"] += r["served"]
+        out["rewaits"] += r["rewaits"]
+        if r["rewaits"]:
+            out["stolen"] += 1
+            if not out["samples"] and nw == 2:
+                out["samples"].append(dict(sched_desc(cfg, nw, blocks, mode), waiters_served=r["served"], stolen_wakeups=r["rewaits"]))
+    return out
+
+
+def report_threads(run, failures):
+    seen = {}
+    for d in sorted(failures, key=lambda d: (len(d["blocks"]), sum(map(len, d["blocks"])), d["waiters"], d["config"], d["blocks"], d["mode"])):
+        desc = dict(config=d["config"], waiters=d["waiters"], blocks=d["blocks"], mode=d["mode"], pool_timeout=d["pool_timeout"],
+                    clause=d["clause"])
+        dj = json.dumps(desc, sort_keys=True)
+        k = run.match_known(function=TFUNCTION, input=dj)
+        if k is not None:
+            run.known_finding(k, "deterministic real-thread schedules on the real QueuePool")
+            continue
+        sig = (d["clause"], d["mode"])
+        seen[sig] = seen.get(sig, 0) + 1
+        if seen[sig] > 1 or len(seen) > 8:
+            continue
+        run.violation(f"C25-threads-{d['clause'][:40]}-{zlib.crc32(dj.encode()) % 10**8}",
+                      dict(function=TFUNCTION, bounded_module="checks.C25_bounded", input=desc,
+                           expected="contract clause " + d["clause"] + " (checks/C25_bounded.py, THREAD SCHEDULES)", actual=d["detail"],
+                           reason="bounded run-time contract check (C25_bounded)"))
+    if seen:
+        run.coverage.setdefault("bounded_violation_classes", {}).update({" | ".join(k): v for k, v in seen.items()})
+
+
+def tcfg_by_name(name):
+    return next(c for c in TCONFIGS if c["name"] == name)
+
+
+def bounded_threads(run, tier):
+    procs = default_procs(tier)
+    res = shard_map(tworker, procs, procs, tier)
+    tot = dict(runs=0, evaluated=0, na=0, stolen=0, rewaits=0, served=0, short=0)
+    failures, samples, inconclusive = [], [], []
+    for r in res:
+        if r is None or "crash" in r:
+            run.crashes.append("C25 bounded (threads): " + (r or {}).get("crash", "shard returned nothing"))
+            continue
+        for k in tot:
+            tot[k] += r[k]
+        failures += r["failures"]
+        samples += r["samples"]
+        inconclusive += r["inconclusive"]
+    cfg = tcfg_by_name("queue(1,0)")
+    tr = run_schedule(cfg, 1, (("ret", "co"),), "long", trace=True)
+    samples = samples[:1] + [dict(sched_desc(cfg, 1, (("ret", "co"),), "long"), trace=tr["steps"], failure=tr["failure"])]
+    nsched = len(schedules(tier))
+    blk = dict(
+        label="bounded (not proof)", property="C25",
+        scope=f"REAL THREADS, deterministic schedules (not all interleavings): QueuePool(pool_size, max_overflow) in "
+              f"{[c['name'] for c in TCONFIGS]} with a pool timeout of {T_LONG:.0f}s; the pool is exhausted by the main thread, 1 or 2 "
+              f"waiter threads block in a timed checkout (each observed inside Condition.wait), then "
+              f"{'one block of <= 3 operations or two blocks of <= 2 operations' if tier == 'quick' else 'one or two blocks of <= 3 operations'} "
+              f"over {BLOCK_OPS} (return / checkout / hard invalidate by the main thread, each block atomic w.r.t. the waiters = "
+              f"queue mutex held: wake-ups delivered inside a block may be stolen inside it), quiescence and all clauses after each "
+              f"block, then every connection is returned one at a time; plus per configuration {1 + len(all_blocks(2))} schedules with one "
+              f"waiter whose timeout is {T_SHORT}s and no return after the block (it may time out, never early)",
+        evaluations=tot["evaluated"], distinct_nontrivial=tot["stolen"],
+        rule="(configuration, #waiters, block sequence, mode) tuples enumerated once each; a schedule in which the main thread would "
+             "itself block (checkout from an empty exhausted pool) or has nothing to return is pruned at run time; counted in "
+             "distinct_nontrivial when, according to the instrumented condition object, at least one waiter was notified, found the "
+             "queue empty again and went back to waiting (stolen wake-up)",
+        samples=samples, exhaustive=True, schedules=nsched, pruned_not_applicable=tot["na"], stolen_wakeups=tot["rewaits"],
+        waiters_served=tot["served"], short_timeout_schedules=tot["short"], inconclusive=len(inconclusive))
+    run.coverage.setdefault("bounded", []).append(blk)
+    if tot["stolen"] < 2 and not failures:
+        run.crashes.append("C25 bounded (threads): vacuity guard: no schedule produced a stolen wake-up")
+    for inc in inconclusive[:5]:
+        run.undecided.append("C25 bounded (threads): no verdict (bounded wait expired twice): " + json.dumps(inc, sort_keys=True))
+    report_threads(run, failures)
+
+
 def cfg_by_name(name):
     return next(c for c in CONFIGS if c["name"] == name)
 
@@ -109,7 +576,7 @@ def bounded(run, tier, seed):
     samples = samples[:2] + [dict(config="queue(1,1)", ops=["co", "co", "co", "inv0", "cof", "co"], trace=tr["steps"], failure=tr["failure"])]
     blk = dict(
         label="bounded (not proof)", property="C25",
-        scope=f"SEQUENTIAL (single-threaded) histories only — thread schedules are not explored: every history of length <= "
+        scope=f"part 1, SEQUENTIAL (single-threaded) histories — thread schedules are in the second block: every history of length <= "
               f"{maxlen} over {OPS} on QueuePool(pool_size in 0..2, max_overflow in -1..2) FIFO plus two LIFO configurations "
               f"({len(CONFIGS)} configurations), timeout=0; every step judged",
         evaluations=tot["evaluated"], distinct_nontrivial=tot["nontrivial"],
@@ -123,11 +590,24 @@ def bounded(run, tier, seed):
     if tot["nontrivial"] < 2:
         run.crashes.append("C25 bounded: vacuity guard: no history reached a limit / fault")
     _report(run, [dict(f) for f in failures], "C25")
+    bounded_threads(run, tier)
 
 
 def replay(data):
     F.quiet()
     inp = data["input"]
+    if "blocks" in inp:
+        r = run_schedule(tcfg_by_name(inp["config"]), inp["waiters"], tuple(tuple(b) for b in inp["blocks"]), inp["mode"], trace=True)
+        if r["inconclusive"] and not r["failure"]:
+            print(f"REPLAY-INCONCLUSIVE {TFUNCTION} input={json.dumps(inp, sort_keys=True)} {r['inconclusive']}")
+            return 2
+        if r["failure"]:
+            print(f"REPLAY-FAILS {TFUNCTION} input={json.dumps(inp, sort_keys=True)} clause={r['failure']['clause']} {r['failure']['detail']}")
+            for s in r["steps"]:
+                print("   ", json.dumps(s, default=repr))
+            return 1
+        print(f"REPLAY-PASSES {TFUNCTION} input={json.dumps(inp, sort_keys=True)} stolen_wakeups={r['rewaits']} served={r['served']}")
+        return 0
     r = H.run_history(cfg_by_name(inp["config"]), tuple(inp["ops"]), trace=True)
     if r["failure"]:
         print(f"REPLAY-FAILS {FUNCTION} input={json.dumps(inp, sort_keys=True)} clause={r['failure']['clause']} {r['failure']['detail']}")
